@@ -349,5 +349,17 @@ def c_obs(o):
     return None if e is None else "(RErr %s)" % e
 
 
+def sigma_oracle(a):
+    """numpy's standard deviation of the valid cells as an exact rational; 0 when there is no valid cell (the value is then irrelevant)"""
+    import math
+    import numpy
+    from fractions import Fraction
+    s = numpy.ma.std(a)
+    if s is numpy.ma.masked:
+        return Fraction(0)
+    s = float(s)
+    return Fraction(0) if math.isnan(s) or math.isinf(s) else Fraction(s)
+
+
 def needs_sigma(cname):
     return "ZScore" in cname
